@@ -36,12 +36,14 @@ type opT struct {
 	Op string `json:"op"`
 	H  string `json:"h"`
 	Ms int    `json:"ms"`
+	St string `json:"st"` // what the model's registry of hub H held for the peer at this step: none / setup / done
 }
 type scriptT struct {
-	ID    int    `json:"id"`
-	High  string `json:"high"` // which hub has the higher SKI
-	Ops   []opT  `json:"ops"`
-	Burst int    `json:"burst"` // resolver events per appearance (avahi reports one per address)
+	ID    int               `json:"id"`
+	IDs   map[string]string `json:"ids"`  // per hub: the SHIP id its application stored for the peer: "" / none, right, wrong
+	High  string            `json:"high"` // which hub has the higher SKI
+	Ops   []opT             `json:"ops"`
+	Burst int               `json:"burst"` // resolver events per appearance (avahi reports one per address)
 }
 
 type evT struct {
@@ -50,6 +52,9 @@ type evT struct {
 	H   string `json:"h"`
 	Ev  string `json:"ev"`
 	V   string `json:"v"`
+	C   int    `json:"c,omitempty"`  // connection number (events of one ShipConnection, see live.go)
+	ID  string `json:"id,omitempty"` // payload / SHIP id carried by a frame
+	N   int    `json:"n,omitempty"`  // further identical events that followed immediately
 }
 
 type hubObs struct {
@@ -74,14 +79,19 @@ type obsT struct {
 	Hubs        map[string]hubObs   `json:"hubs"`
 	OpenStreams int                 `json:"openStreams"`
 	Streams     int                 `json:"streams"`
-	Stable      bool                `json:"stable"` // both registered each other and see each other at the end
+	Stable      bool                `json:"stable"`  // both registered each other and see each other at the end
 	Settled     bool                `json:"settled"` // the observation was taken at rest
 	ShutDown    map[string]bool     `json:"shutDown"`
 	UserReg     map[string]bool     `json:"userReg"` // the user's last word for the peer's SKI was Register
+	AutoOn      map[string]bool     `json:"autoOn"`  // auto accept is switched on at the end
 	Sent        map[string][]string `json:"sent"`
+	Conns       []connObs           `json:"conns"` // every ShipConnection the hubs created, as recorded by the wrappers
 }
 
+const maxEvents = 20000 // a scenario that logs more than this is a runaway loop: it is reported as not at rest
+
 type elog struct {
+	flood bool
 	mu    sync.Mutex
 	start time.Time
 	ev    []evT
@@ -90,7 +100,32 @@ type elog struct {
 
 func (l *elog) add(h, ev, v string) {
 	l.mu.Lock()
+	// an identical event repeated back to back (a re-announcement loop) is counted, not listed
+	if k := len(l.ev); k > 0 && (ev == "Announce" || ev == "Unannounce") && l.ev[k-1].Ev == ev && l.ev[k-1].H == h {
+		l.ev[k-1].N++
+		l.last = time.Now()
+		l.mu.Unlock()
+		return
+	}
+	if len(l.ev) >= maxEvents {
+		l.flood = true
+		l.last = time.Now()
+		l.mu.Unlock()
+		return
+	}
 	l.ev = append(l.ev, evT{Seq: len(l.ev) + 1, T: time.Since(l.start).Milliseconds(), H: h, Ev: ev, V: v})
+	l.last = time.Now()
+	l.mu.Unlock()
+}
+func (l *elog) addc(h string, c int, ev, v, id string) {
+	l.mu.Lock()
+	if len(l.ev) >= maxEvents {
+		l.flood = true
+		l.last = time.Now()
+		l.mu.Unlock()
+		return
+	}
+	l.ev = append(l.ev, evT{Seq: len(l.ev) + 1, T: time.Since(l.start).Milliseconds(), H: h, Ev: ev, V: v, C: c, ID: id})
 	l.last = time.Now()
 	l.mu.Unlock()
 }
@@ -110,7 +145,8 @@ type proxy struct {
 }
 
 func newProxy(target string) *proxy {
-	l, err := net.Listen("tcp", "127.0.0.1:0")
+	// every loopback address reaches the hub (the ether announces 127.0.0.1 .. 127.0.0.3)
+	l, err := net.Listen("tcp", "0.0.0.0:0")
 	if err != nil {
 		panic(err)
 	}
@@ -125,29 +161,33 @@ func newProxy(target string) *proxy {
 				_ = c.Close()
 				continue
 			}
-			d, err := net.Dial("tcp", target)
-			if err != nil {
-				_ = c.Close()
-				continue
-			}
-			p.total.Add(1)
+			// logged as soon as the dialler's connection is accepted: connecting on to the hub takes its own time (a hub
+			// that is restarting), which must not be mistaken for a late dial
 			if p.onOpen != nil {
 				p.onOpen()
 			}
-			p.mu.Lock()
-			id := p.next
-			p.next++
-			p.open[id] = [2]net.Conn{c, d}
-			p.mu.Unlock()
-			done := func() {
-				_ = c.Close()
-				_ = d.Close()
+			go func() { // the accept loop goes on at once
+				d, err := net.Dial("tcp", target)
+				if err != nil {
+					_ = c.Close()
+					return
+				}
+				p.total.Add(1)
 				p.mu.Lock()
-				delete(p.open, id)
+				id := p.next
+				p.next++
+				p.open[id] = [2]net.Conn{c, d}
 				p.mu.Unlock()
-			}
-			go func() { _, _ = io.Copy(d, c); done() }()
-			go func() { _, _ = io.Copy(c, d); done() }()
+				done := func() {
+					_ = c.Close()
+					_ = d.Close()
+					p.mu.Lock()
+					delete(p.open, id)
+					p.mu.Unlock()
+				}
+				go func() { _, _ = io.Copy(d, c); done() }()
+				go func() { _, _ = io.Copy(c, d); done() }()
+			}()
 		}
 	}()
 	return p
@@ -211,26 +251,32 @@ func (r *appReader) HandleShipPayloadMessage(m []byte) {
 }
 
 type node struct {
-	name     string
-	ski      string
-	l        *elog
-	eth      *ether
-	h        *hub.Hub
-	mgr      *mdns.MdnsManager
-	prov     *provider
-	px       *proxy
-	mu       sync.Mutex
-	writer   api.ShipConnectionDataWriterInterface
-	writers  []api.ShipConnectionDataWriterInterface
-	received []string
-	sent     []string
-	lastWord string
-	lastNote string
-	setups   int
-	discs    int
-	shipIDs  int
-	nsent    int
-	gen      int
+	name      string
+	ski       string
+	l         *elog
+	eth       *ether
+	h         *hub.Hub
+	mgr       *mdns.MdnsManager
+	prov      *provider
+	px        *proxy
+	mu        sync.Mutex
+	writer    api.ShipConnectionDataWriterInterface
+	writers   []api.ShipConnectionDataWriterInterface
+	received  []string
+	sent      []string
+	lastWord  string
+	lastNote  string
+	setups    int
+	discs     int
+	shipIDs   int
+	nsent     int
+	gen       int
+	inboxMu   sync.Mutex
+	inbox     []func()
+	inboxBusy bool
+	conns     []*liveConn // live.go
+	nconn     int
+	connBase  int
 }
 
 // gate is the HubReaderInterface of one incarnation of a hub
@@ -259,7 +305,7 @@ func (g *gate) SetupRemoteDevice(ski string, w api.ShipConnectionDataWriterInter
 
 type nullReader struct{}
 
-func (nullReader) HandleShipPayloadMessage([]byte) {}
+func (nullReader) HandleShipPayloadMessage([]byte)                 {}
 func (g *gate) VisibleRemoteServicesUpdated(e []api.RemoteService) {}
 func (g *gate) ServiceShipIDUpdate(ski string, id string) {
 	if g.live() {
@@ -347,7 +393,7 @@ func (e *ether) announce(n *node, txt []string) {
 	e.mu.Unlock()
 	n.l.add(n.name, "Announce", "")
 	if vis {
-		go e.deliver(o, n, false)
+		o.post(func() { e.deliver(o, n, false) })
 	}
 }
 func (e *ether) unannounce(n *node) {
@@ -358,8 +404,40 @@ func (e *ether) unannounce(n *node) {
 	e.mu.Unlock()
 	n.l.add(n.name, "Unannounce", "")
 	if vis {
-		go e.deliver(o, n, true)
+		o.post(func() { e.deliver(o, n, true) })
 	}
+}
+
+// what a node hears on mDNS arrives in the order it was sent: one inbox per node, worked off by one goroutine
+func (n *node) post(f func()) {
+	n.inboxMu.Lock()
+	n.inbox = append(n.inbox, f)
+	start := !n.inboxBusy
+	n.inboxBusy = true
+	n.inboxMu.Unlock()
+	if start {
+		go func() {
+			for {
+				n.inboxMu.Lock()
+				if len(n.inbox) == 0 {
+					n.inboxBusy = false
+					n.inboxMu.Unlock()
+					return
+				}
+				g := n.inbox[0]
+				n.inbox = n.inbox[1:]
+				n.inboxMu.Unlock()
+				g()
+			}
+		}()
+	}
+}
+
+// postWait delivers in order and waits until it is done
+func (n *node) postWait(f func()) {
+	done := make(chan struct{})
+	n.post(func() { f(); close(done) })
+	<-done
 }
 
 // deliver the announcement of `from` to the manager of `to` (one resolver event per address, like avahi)
@@ -402,6 +480,13 @@ func newCert(name string) (tls.Certificate, string) {
 	return c, ski
 }
 
+func otherName(h string) string {
+	if h == "A" {
+		return "B"
+	}
+	return "A"
+}
+
 func freePort() int {
 	l, err := net.Listen("tcp", "127.0.0.1:0")
 	if err != nil {
@@ -442,9 +527,20 @@ func runScript(s scriptT) obsT {
 		n.mu.Unlock()
 		// callbacks of an earlier incarnation (goroutines that outlive its Shutdown) do not reach the restarted application
 		n.h = hub.NewHub(&gate{n: n, gen: g}, &mdnsAdapter{m: mgr, p: n.prov}, ports[name], certs[name], local)
+		hubNodes.Store(n.h, n)
+		// what the application knows about the peer from earlier sessions: its SHIP id (C09)
+		switch s.IDs[name] {
+		case "right":
+			n.h.ServiceForSKI(skis[otherName(name)]).SetShipID("shipid-" + otherName(name))
+		case "wrong":
+			n.h.ServiceForSKI(skis[otherName(name)]).SetShipID("shipid-" + name)
+		}
 	}
 	for _, name := range []string{"A", "B"} {
 		n := &node{name: name, ski: skis[name], l: l, eth: eth}
+		if name == "B" {
+			n.connBase = 1000
+		}
 		ports[name] = freePort()
 		n.px = newProxy(fmt.Sprintf("127.0.0.1:%d", ports[name]))
 		hn := name
@@ -459,29 +555,54 @@ func runScript(s scriptT) obsT {
 	time.Sleep(120 * time.Millisecond) // servers listening
 	other := map[string]string{"A": "B", "B": "A"}
 	registered := map[string]bool{}
+	autoOn := map[string]bool{}
 	for _, op := range s.Ops {
 		n := eth.nodes[op.H]
+		// the model took this step with a connection registered at the hub (being set up, or completed): give the real hub
+		// the time to get there, then act at once
+		if n != nil && op.Op != "Disconnect" && (op.St == "setup" || op.St == "done") {
+			for t := 0; t < 400; t++ {
+				if c, ok := n.h.VerifRegistry()[skis[other[op.H]]]; ok {
+					if st, _ := c.ShipHandshakeState(); op.St == "setup" || st == model.SmeStateComplete {
+						break
+					}
+				}
+				time.Sleep(5 * time.Millisecond)
+			}
+		}
 		switch op.Op {
 		case "Register":
 			l.add(op.H, "OpRegister", "")
 			n.h.RegisterRemoteSKI(skis[other[op.H]])
 			registered[op.H] = true
+			l.add(op.H, "OpRegisterEnd", "")
 		case "Unregister":
 			l.add(op.H, "OpUnregister", "")
 			n.h.UnregisterRemoteSKI(skis[other[op.H]])
 			registered[op.H] = false
+			l.add(op.H, "OpUnregisterEnd", "")
+		case "Cancel":
+			l.add(op.H, "OpCancel", "")
+			n.h.CancelPairingWithSKI(skis[other[op.H]])
+			registered[op.H] = false
+			l.add(op.H, "OpCancelEnd", "")
+		case "AutoOn", "AutoOff":
+			l.add(op.H, "Op"+op.Op, "")
+			n.h.SetAutoAccept(op.Op == "AutoOn")
+			autoOn[op.H] = op.Op == "AutoOn"
+			l.add(op.H, "Op"+op.Op+"End", "")
 		case "Appear": // op.H starts to see the other hub
 			eth.mu.Lock()
 			eth.visible[op.H] = true
 			eth.mu.Unlock()
 			l.add(op.H, "OpAppear", "")
-			eth.deliver(n, eth.nodes[other[op.H]], false)
+			n.postWait(func() { eth.deliver(n, eth.nodes[other[op.H]], false) })
 		case "Disappear":
 			eth.mu.Lock()
 			eth.visible[op.H] = false
 			eth.mu.Unlock()
 			l.add(op.H, "OpDisappear", "")
-			eth.deliver(n, eth.nodes[other[op.H]], true)
+			n.postWait(func() { eth.deliver(n, eth.nodes[other[op.H]], true) })
 		case "Disconnect":
 			// the model disconnects a completed connection: wait for it (bounded), then disconnect at once
 			for t := 0; t < 600; t++ {
@@ -521,14 +642,21 @@ func runScript(s scriptT) obsT {
 			build(n)
 			n.h.Start()
 			time.Sleep(60 * time.Millisecond) // server listening
+			if autoOn[op.H] {
+				l.add(op.H, "OpAutoOn", "")
+				n.h.SetAutoAccept(true)
+				l.add(op.H, "OpAutoOnEnd", "")
+			}
 			if registered[op.H] {
+				l.add(op.H, "OpRegister", "")
 				n.h.RegisterRemoteSKI(skis[other[op.H]])
+				l.add(op.H, "OpRegisterEnd", "")
 			}
 			eth.mu.Lock()
 			sees := eth.visible[op.H]
 			eth.mu.Unlock()
 			if sees {
-				eth.deliver(n, eth.nodes[other[op.H]], false)
+				n.postWait(func() { eth.deliver(n, eth.nodes[other[op.H]], false) })
 			}
 			l.add(op.H, "OpRestartEnd", "")
 		case "Sleep":
@@ -571,7 +699,7 @@ func runScript(s scriptT) obsT {
 	// such an observation is not a quiescent state and the monitor does not judge it as one
 	l.add("", "Quiesced", vh.B(settled))
 	o := obsT{ID: s.ID, Script: s, Settled: settled, Hubs: map[string]hubObs{}, ShutDown: shut, Sent: map[string][]string{},
-		UserReg: map[string]bool{"A": registered["A"], "B": registered["B"]}}
+		UserReg: map[string]bool{"A": registered["A"], "B": registered["B"]}, AutoOn: map[string]bool{"A": autoOn["A"], "B": autoOn["B"]}}
 	// echo: whatever each application writes now must arrive at the other one
 	before := map[string]int{}
 	for name, n := range eth.nodes {
@@ -635,7 +763,31 @@ func runScript(s scriptT) obsT {
 	o.Streams = int(eth.nodes["A"].px.total.Load() + eth.nodes["B"].px.total.Load())
 	l.mu.Lock()
 	o.Events = append([]evT{}, l.ev...)
+	if l.flood {
+		o.Settled = false
+	}
 	l.mu.Unlock()
+	storedAbs := map[string]string{}
+	for _, name := range []string{"A", "B"} {
+		switch s.IDs[name] {
+		case "right":
+			storedAbs[name] = otherName(name)
+		case "wrong":
+			storedAbs[name] = name
+		default:
+			storedAbs[name] = "none"
+		}
+	}
+	o.Conns = collectConns(eth.nodes, o.Events, storedAbs)
+	// the scenario-level history keeps the hub-level events and, of the connections' events, only the hub's answers about
+	// trust and the approvals (the rest is in Conns)
+	hubLevel := o.Events[:0:0]
+	for _, e := range o.Events {
+		if e.C == 0 || e.Ev == "c.q" || (e.Ev == "c.enter" && e.V == "approve") {
+			hubLevel = append(hubLevel, e)
+		}
+	}
+	o.Events = hubLevel
 	for name, n := range eth.nodes {
 		if !shut[name] {
 			n.h.Shutdown()
@@ -666,6 +818,7 @@ func main() {
 	flag.Parse()
 	log.SetOutput(io.Discard) // net/http logs every refused TLS handshake
 	util.VerifSetDelayScale(*scale)
+	installLive()
 	var scripts []scriptT
 	if err := vh.ReadLines(*in, func(b []byte) error {
 		var s scriptT
